@@ -32,6 +32,9 @@ CHECKS["C06"] = dict(cat="translation_validation", tech="symbolic execution of t
 CHECKS["C08"] = dict(cat="translation_validation", tech="symbolic execution of the traced integrate IR with one symbol per table entry and per input sample: symbol identity for recordings/clamps, variable support for timing, DAG equality (congruence descent + z3) for additivity, t_max and data-vs-static",
    text="The solver side is used as an exact dependency tracker: each recording row must be the requested symbol (column 0) and the manual-stepping trajectory at the harness's own coordinate (columns k); stimulus timing is decided on variable support, additivity/t_max/data-vs-static and clamps by DAG equality for all symbolic values. Recording plans are shuffled and include two synapse types created in interleaved order.",
    note="oracle coordinates come from the harness's own bookkeeping; spsolve as uninterpreted function with congruence; exact real arithmetic", ref="6 C08")
+CHECKS["C10"] = dict(cat="translation_validation", tech="symbolic execution of init_fn / integrate with one symbol per table entry: symbol identity per row for trainable routing, DAG equality (structural / congruence descent + z3) for set vs data_set vs make_trainable",
+   text="For every (module, view, key) of the enumerated family the parameter/state arrays built by the traced init_fn must hold the trainable's symbol on exactly the selected rows and the table's own value elsewhere (decided by symbol identity, i.e. for all values), and the three ways of setting a value must give the same simulation DAG. write_trainables is a concrete side-check.",
+   note="exact real arithmetic; grouping oracle = rows of the view grouped by controlled_by_param; write_trainables (pandas) not solver-decided", ref="6 C10")
 NA = {}
 checks = []
 for pid, c in CHECKS.items():
